@@ -180,7 +180,7 @@ Explained(e) ==
        ELSE PrintT(<<"MSG", ToJson([unexplained |-> e.case, checks |-> left])>>) /\ Lenient
 
 Next == /\ l <= Len(Rec)
-        /\ Explained(Rec[l])
+        /\ Explained(Rec[l]) = TRUE
         /\ l' = l + 1
 Spec == Init /\ [][Next]_l
 
